@@ -34,6 +34,10 @@ def own_marks(p):
     return [('path',), ('status', 201 + p % 2), ('sethdr', 'X-Own', 'o%d' % p)]
 
 
+SINGLE_ARR = ['alternating', 'nested', 'nested2', 'copy', 'construct', 'mixed', 'mapped', 'mapped-nested',
+              'copyhdr', 'helpers', 'idle', 'mutate', 'listen']
+
+
 def gen_single(rng, idx):
     """single-thread arrangement number idx: (name, case)"""
     apps = rng.choice([[0, 1], [0, 1, 2], [1, 2], [1, 2, 3], [0, 2]])
@@ -46,8 +50,9 @@ def gen_single(rng, idx):
     def rq(app, kind=None, p=None):
         n = nr()
         return req_for(app, n, kind or rng.choice(KINDS), n if p is None else p)
-    kind = ['alternating', 'nested', 'nested2', 'copy', 'construct', 'mixed', 'mapped', 'mapped-nested',
-            'copyhdr', 'helpers', 'idle', 'mutate'][idx % 12]
+    kind = SINGLE_ARR[idx % len(SINGLE_ARR)]
+    if kind == 'listen':
+        return gen_listen(rng, idx)
     if kind == 'mutate':
         return gen_mutate(rng, idx)
     if kind == 'helpers':
@@ -126,7 +131,7 @@ def gen_helpers(rng, idx):
     """a handler calls another application whose handler leaves through redirect() / abort() / a raised
     HTTPResponse; the default application in the outer and in the inner role, also through a third
     application; the outer handler reads its response before and after"""
-    v = (idx // 12) % 6
+    v = (idx // len(SINGLE_ARR)) % 6
     n = [0]
 
     def rq(app, kind='status', **kw):
@@ -180,7 +185,7 @@ def gen_mutate(rng, idx):
     unlisted status code with its own reason phrase); the other applications - same static route, same raw
     query string / Cookie header / body - must see what their own request carries: alternating, nested,
     with the default application, with an application created in the middle of a request, both orders"""
-    v = (idx // 12) % 6
+    v = (idx // len(SINGLE_ARR)) % 6
     apps = [[0, 2], [1, 2], [2, 0], [0, 1, 2], [1, 2], [2, 1]][v]
     a, b = apps[0], apps[1]
 
@@ -213,6 +218,50 @@ def gen_mutate(rng, idx):
     return 'mutate', case
 
 
+def gen_listen(rng, idx):
+    """event subscriptions: a handler of one application subscribes to its request object
+    (`app.request.on('env_changed' | user event, cb)`); afterwards the other applications - existing ones, the
+    default one, one created later, idle ones - store through THEIR request (`app.request[k] = v`, emit) and read
+    back.  A listener fires for the request object it was subscribed to and for no other: alternating, nested
+    both ways, with a copy, with an application constructed after the subscription, subscriber = default app"""
+    v = (idx // len(SINGLE_ARR)) % 8
+    n = [0]
+
+    def rq(app, kind):
+        n[0] += 1
+        return req_for(app, n[0], kind, n[0] + idx % 5)
+    lk = rng.choice(['listener', 'listener', 'listener2', 'ticker'])
+    a, b = [(1, 2), (0, 2), (2, 0), (1, 2), (2, 1), (0, 1), (1, 0), (2, 3)][v]
+    init = [a, b]
+    if v in (0, 1, 2):          # alternating: before the subscription, after it, and again
+        items = [('serve', rq(b, 'setter')), ('serve', rq(a, lk)), ('serve', rq(b, 'setter')), ('serve', rq(a, 'setter')),
+                 ('serve', rq(b, rng.choice(['setter', 'copyhdr', 'ticker']))), ('serve', rq(a, 'setter'))]
+    elif v == 3:                # the subscriber calls the other application, which stores; then stores itself
+        outer = with_ops(rq(a, lk), [], [('nested', rq(b, 'setter')), ('reqset', 'x.after', 'a%d' % idx), ('header', 'X-K')])
+        items = [('serve', outer), ('serve', rq(b, 'setter')), ('serve', rq(a, 'setter'))]
+    elif v == 4:                # the other application is in the middle of a request when the subscription is made
+        outer = with_ops(rq(b, 'setter'), [], [('nested', rq(a, lk)), ('reqset', 'HTTP_X_K', 'late%d' % idx), ('header', 'X-K'),
+                                               ('reqset', 'x.late', 'l%d' % idx), ('envget', 'x.late')])
+        items = [('serve', outer), ('serve', rq(a, 'setter')), ('serve', rq(b, 'setter'))]
+    elif v == 5:                # an application constructed after the subscription (inside that handler / later)
+        new = 4
+        outer = with_ops(rq(a, lk), [], [('construct', new)])
+        items = [('serve', outer), ('serve', rq(new, 'setter')), ('construct', new + 1), ('serve', rq(new + 1, 'setter')),
+                 ('serve', rq(b, 'setter')), ('serve', rq(a, 'setter'))]
+    elif v == 6:                # idle request objects of other applications are stored through
+        items = [('construct', 6), ('serve', rq(a, lk)), ('idle', 6), ('poke', 6, 'HTTP_X_K', 'p%d' % idx), ('idle', 6),
+                 ('construct', 7), ('poke', 7, 'x.k0', 'q%d' % idx), ('pokeattr', 7, 'foo', 'w'), ('idle', 7), ('idle', 6),
+                 ('serve', rq(b, 'setter')), ('serve', rq(a, 'setter'))]
+    else:                       # two subscribers, each hears its own request only; a third application hears nothing
+        c = 1
+        init = [a, b, c]
+        outer = with_ops(rq(a, 'listener'), [], [('nested', with_ops(rq(b, 'ticker'), [], [('nested', rq(c, 'setter'))]))])
+        items = [('serve', outer), ('serve', rq(c, 'setter')), ('serve', rq(b, 'setter')), ('serve', rq(a, 'setter'))]
+    case = dict(apps=init, threads={1: items}, switches=[])
+    case['cfg'] = {x: CFGS[rng.choice(['plain', 'debug', 'custom'])] for x in sorted(set(tsconc.case_apps(case)))}
+    return 'listen', case
+
+
 def gen_idle(rng, idx):
     """idle request objects: every Ombott() gives its request a fresh environ; storing through one
     application's idle request must not show in another's (single thread; the worker constructs)"""
@@ -238,7 +287,15 @@ def pick_cfgs(rng, case):
 
 
 THREAD_ARR = ['serve', 'construct', 'copy', 'nested', 'default-nested', 'three', 'mapped', 'mapped-default',
-              'copyhdr', 'mutate', 'mutate-default']
+              'copyhdr', 'mutate', 'mutate-default', 'listen', 'bodies', 'bodies-default']
+
+# two applications decoding a request body at the same time (preemption points inside _iter_chunked / _iter_body /
+# _body_read / the multipart parser of one application while the other one decodes a whole body)
+BODY_PAIRS = [('chunked', 'chunked'), ('chunked', 'chunkedmp'), ('chunkedmp', 'chunked'), ('multipart', 'chunkedmp'),
+              ('chunkedmp', 'multipart'), ('body', 'chunked'), ('chunked', 'body'), ('multipart', 'multipart'),
+              ('chunkedmp', 'chunkedmp')]
+SWEEP_CAP = 1000     # quick tier: at most this many single preemption points per arrangement (every k-th line, the
+                     # offset varies with the seed and the arrangement number)
 
 
 def gen_threads(rng, idx):
@@ -277,6 +334,17 @@ def gen_threads(rng, idx):
             (rng.choice(['reader', 'reader799']), 'mutator')
         case = dict(apps=[a0, 2], threads={1: [('serve', req_for(a0, 900, first, 1)), ('serve', req_for(a0, 900, 'reader', 1))],
                                           2: [('serve', req_for(2, 900, second, 1))]})
+    elif kind == 'listen':
+        # one application subscribes to its request object while another one, on another thread, stores through its own
+        lk = rng.choice(['listener', 'listener2', 'ticker'])
+        case = dict(apps=[a, 2], threads={1: [('serve', req_for(a, 1, lk, 1)), ('serve', req_for(a, 3, 'setter', 3))],
+                                          2: [('serve', req_for(2, 2, 'setter', 2)), ('serve', req_for(2, 4, 'setter', 4))]})
+    elif kind in ('bodies', 'bodies-default'):
+        k1, k2 = BODY_PAIRS[(idx // len(THREAD_ARR)) % len(BODY_PAIRS)] if kind == 'bodies' else \
+            rng.choice(BODY_PAIRS[:3])
+        a0 = 0 if kind == 'bodies-default' else a
+        p1, p2 = rng.randint(1, 9), rng.randint(1, 9)      # chunk sizes / size-line spellings depend on p
+        case = dict(apps=[a0, 2], threads={1: [('serve', req_for(a0, 1, k1, p1))], 2: [('serve', req_for(2, 2, k2, p2))]})
     elif kind == 'copyhdr':
         r1 = with_ops(req_for(a, 1, 'copyhdr', 1), own_marks(1), READBACK)
         r2 = with_ops(req_for(2, 2, 'copyhdr', 2), [], [('nested', req_for(3, 3, 'copyhdr', 3)), ('header', 'X-K')])
@@ -287,7 +355,7 @@ def gen_threads(rng, idx):
                                             3: [('serve', with_ops(req_for(3, 3, 'cookies', 3), [('copy',)], READBACK))]})
     case['switches'] = []
     case['cfg'] = pick_cfgs(rng, case)
-    if kind.startswith('mutate'):
+    if kind.startswith('mutate') or kind == 'listen':
         case['cfg'] = {x: CFGS[rng.choice(['plain', 'debug', 'custom'])] for x in case['cfg']}
     return 'threads-' + kind, case
 
@@ -387,7 +455,8 @@ def run_one(name, case, cache, label_only=False):
 
 
 def shard(args):
-    mode, seed, lo, hi = args
+    mode, seed, lo, hi = args[:4]
+    cap = args[4] if len(args) > 4 else 0
     cache = {}
     out = {}
     finds = []
@@ -409,12 +478,15 @@ def shard(args):
                 line, ans, bad, w0 = run_one(name, case, cache)
                 n1 = w0.sched.order[0][1]
                 nthreads = len(case['threads'])
-                todo = [[]] + [[(k, t)] for k in range(1, n1 + 1) for t in range(2, nthreads + 1)]
+                # every single preemption point of thread 1 (capped: every k-th line, offset from seed and idx)
+                stride = 1 if not cap or n1 <= cap else -(-n1 // cap)
+                ks = range(1 + (seed + idx) % stride, n1 + 1, stride)
+                todo = [[]] + [[(k, t)] for k in ks for t in range(2, nthreads + 1)]
                 total = w0.sched.step
                 for _ in range(30):
                     pts = sorted(rng.sample(range(1, total + 1), min(rng.randint(2, 5), total)))
                     todo.append([(p, rng.randint(1, nthreads)) for p in pts])
-                stats['points'] += n1
+                stats['points'] += len(ks)
             stats['arrangements'][name] = stats['arrangements'].get(name, 0) + 1
             for sw in todo:
                 c = dict(case, switches=sw)
@@ -462,8 +534,13 @@ class C10(Check):
             'response before and after, idle request objects (construct / store through one idle request / inspect '
             'all), one application mutating in place everything it is handed while others (same static route, same raw '
             'inputs; default app, nested, app created mid-request, other thread, custom 799 phrase in both orders) read, '
-            'with an identity check of the handed-out objects; single thread, and 2-3 threads under the baton scheduler with every single '
-            'preemption point of thread 1 plus random multi-preemption schedules; every application is compared with '
+            'with an identity check of the handed-out objects; event subscriptions on the request object (a handler calls '
+            'app.request.on(env_changed | a user event), also twice / taken back / next to a copy; afterwards the other '
+            'applications - default app, one built after the subscription, idle ones, nested both ways, another thread - '
+            'store through app.request[k]=v or emit and read back: a listener hears its own request object only; model op '
+            'reqSet); two applications decoding chunked / multipart / chunked-multipart / urlencoded bodies at the same '
+            'time on two threads (default app included); single thread, and 2-3 threads under the baton scheduler with every single '
+            'preemption point of thread 1 (quick: every k-th line when over 1000, offset from the seed) plus random multi-preemption schedules; every application is compared with '
             'the run in which the others\' operations (and its own copies) are deleted, computed in a forked child of '
             'the untouched process; non-trivial = more than one application takes part')
     assumptions = ['thread switches happen at source-line boundaries inside ombott/* and the handlers',
@@ -491,12 +568,13 @@ class C10(Check):
     def _jobs(self, rng, n):
         seed = rng.randrange(1 << 30)
         jobs = []
-        nsingle = 144 * n
+        cap = SWEEP_CAP if getattr(self, '_tier', 'quick') == 'quick' else 0
+        nthr = len(THREAD_ARR) * n
+        for i in range(nthr):           # the long jobs first
+            jobs.append(('threads', seed, i, i + 1, cap))
+        nsingle = 12 * len(SINGLE_ARR) * n
         for lo in range(0, nsingle, 20):
-            jobs.append(('single', seed, lo, lo + 20))
-        nthr = 11 * n
-        for i in range(nthr):
-            jobs.append(('threads', seed, i, i + 1))
+            jobs.append(('single', seed, lo, min(nsingle, lo + 20)))
         return jobs
 
     def _run(self, rng, n):
@@ -546,7 +624,7 @@ class C10(Check):
     def replay(self, data):
         inp = data['input']
         case = inp['case']
-        case['threads'] = {int(k): [tuple(it) if it[0] == 'construct' else ('serve', _detuple(it[1])) for it in v]
+        case['threads'] = {int(k): [tuple(it) if it[0] != 'serve' else ('serve', _detuple(it[1])) for it in v]
                            for k, v in case['threads'].items()}
         case['switches'] = [tuple(x) for x in case['switches']]
         case['cfg'] = {int(k): dict(v, before=[tuple(o) for o in v.get('before', [])],
